@@ -205,3 +205,16 @@ Proof.
   assert (p_cands p = p_cands p') as E by (rewrite Hc, Hc'; reflexivity).
   split; [exact E|]. rewrite (launch_lookup fs _ _ Hq), (launch_lookup fs _ _ Hq'), E. reflexivity.
 Qed.
+
+(* the search is made against the PARENT's PATH: whatever environment (a PATH of its own included) is requested
+   for the child, an accepted request has the same candidate list, hence tries the same paths with the same outcome *)
+Theorem lookup_ignores_child_env r env' p p' :
+  prepare r = PPlan p -> prepare (mkreq (r_argv r) (r_exe r) env' (r_cwd r) (r_path r)) = PPlan p' ->
+  p_cands p' = p_cands p /\ forall fs, exec_loop fs (p_cands p') ENOENT = exec_loop fs (p_cands p) ENOENT.
+Proof.
+  unfold prepare. cbn [r_argv r_exe r_env r_cwd r_path]. intros H H'.
+  destruct (r_argv r) as [|a0 rest]; [discriminate|].
+  repeat match type of H with context [if ?c then _ else _] => destruct c; [discriminate|] end.
+  repeat match type of H' with context [if ?c then _ else _] => destruct c; [discriminate|] end.
+  injection H as <-. injection H' as <-. cbn [p_cands]. split; [reflexivity|intros fs; reflexivity].
+Qed.
